@@ -685,6 +685,8 @@ Record exact2h (g : RV2 -> R) (S B : RV2 -> Prop) : Prop := {
              p = ray2 b n (g p) /\ forall t, 0 <= t -> g (ray2 b n t) = t
 }.
 
+Lemma distr3 (a b c d : R) : (a + b * c) * d = a * d + b * (c * d).
+Proof. ring. Qed.
 Lemma rho_nonneg p : 0 <= rho p.
 Proof. apply sqrt_pos. Qed.
 Lemma rho_scaled e c z : unit2 e -> 0 <= c -> rho (mkV3 (c * vx e) (c * vy e) z) = c.
@@ -716,14 +718,14 @@ Proof.
       assert (E2 : wz p = vy b + g (mer p) * vy n) by (apply (f_equal vy) in Ep; exact Ep).
       apply (f_equal vx) in Epx as Ex. apply (f_equal vy) in Epx as Ey. cbn [pxy vx vy] in Ex, Ey.
       apply V3_eq; unfold ray3, b3, n3; cbn [wx wy wz].
-      * rewrite Ex, E1. ring.
-      * rewrite Ey, E1. ring.
+      * rewrite Ex, E1. apply distr3.
+      * rewrite Ey, E1. apply distr3.
       * exact E2.
     + intros t Ht0. rewrite Hmer by exact Ht0. apply Ht; exact Ht0.
 Qed.
 
 (* revolve_full_preserves_sdf, in terms of is_sdf: a profile whose boundary lies in x >= 0 *)
-Theorem revolve_full_preserves_sdf g S B : (forall q, B q -> 0 <= vx q) -> is_sdf2 g S B ->
+Theorem revolve_full_preserves_sdf g S (B : RV2 -> Prop) : (forall q, B q -> 0 <= vx q) -> is_sdf2 g S B ->
   is_sdf3 (fun p => g (mer p)) (fun p => S (mer p)) (fun q => B (mer q)).
 Proof.
   intros HB H p. destruct (H (mer p)) as (Sg & Lo & (q2 & Hq2 & Dq)). split; [exact Sg|]. split.
@@ -779,7 +781,7 @@ Theorem cylinder_sharp_is_sdf h r o : k_cylinder h r 0 = Some o ->
           (fun q => rho q <= r /\ Rabs (wz q) <= h / 2 /\ (rho q = r \/ Rabs (wz q) = h / 2)).
 Proof.
   intros H. pose proof (cylinder_exact h r 0 o H) as E. cbv zeta in E.
-  replace (r - 0) with r in E by ring. replace (h / 2 - 0) with (h / 2) in E by ring.
+  rewrite !Rminus_0_r in E.
   set (ss := mkV2 r (h / 2)) in *.
   unfold k_cylinder in H.
   change (oleb ROps r (o0 ROps)) with (Rleb r 0) in H. destruct (Rleb r 0) eqn:C1; [discriminate|]. apply Rleb_false in C1.
@@ -807,5 +809,228 @@ Theorem capsule_is_sdf h r o : k_cylinder h r r = Some o ->
   let ss := mkV2 0 (h / 2 - r) in
   is_sdf3 (ev3 o) (fun p => @sdf_box2d ROps (mer p) ss < r) (fun q => @sdf_box2d ROps (mer q) ss = r).
 Proof.
-  intros H ss. pose proof (cylinder_is_sdf h r r o H) as E. cbv zeta in E. replace (r - r) with 0 in E by ring. exact E.
+  intros H ss. pose proof (cylinder_is_sdf h r r o H) as E. cbv zeta in E. replace (r - r) with 0 in E by (symmetry; apply Rminus_diag_eq; reflexivity). exact E.
+Qed.
+
+(* ------------------------------------------------------------------ the truncated cone (all seven regions) *)
+Lemma add_neg_cancel (a k m : R) : a = a + - k * m + k * m.
+Proof. ring. Qed.
+
+Theorem cone_profile_exact sh sr0 sr1 ux uy l : cone_fields sh sr0 sr1 ux uy l -> 0 <= sr0 -> 0 <= sr1 ->
+  exact2h (coneU sh sr0 sr1 ux uy l) (coneS sh sr0 ux uy) (coneB sh sr0 ux uy).
+Proof.
+  intros [Hu Huy Hl Hx Hz] H0 H1. constructor.
+  - apply (coneU_lip sh sr0 sr1 ux uy l Hu Huy Hl Hx Hz).
+  - intros q _ Hq. apply (coneB_zero sh sr0 sr1 ux uy l Hu Huy Hl Hx Hz q Hq).
+  - intros p _. apply (coneU_sign sh sr0 sr1 ux uy l Hu Huy Hl Hx Hz p).
+  - intros P HP.
+    destruct (cone_nearest sh sr0 sr1 ux uy l Hu Huy Hl Hx Hz P) as (m1 & m2 & M1 & Hm & Hc & HK & Hside).
+    set (U := coneU sh sr0 sr1 ux uy l P) in *.
+    set (b := shift2 P (- U) m1 m2) in *.
+    assert (Hcb : csup sh sr0 sr1 m1 m2 b = 0).
+    { unfold csup in *. destruct (shift_coords sh sr0 sr1 ux uy P (- U) m1 m2) as (S1 & S2 & S3 & S4 & _).
+      fold b in S1, S2, S3, S4. rewrite S1, S2, S3, S4.
+      replace (m1 * (cvx sr0 P + - U * m1) + m2 * (cvz sh P + - U * m2)) with (m1 * cvx sr0 P + m2 * cvz sh P - U * (m1 * m1 + m2 * m2)) by ring.
+      replace (m1 * (cwx sr1 P + - U * m1) + m2 * (cwz sh P + - U * m2)) with (m1 * cwx sr1 P + m2 * cwz sh P - U * (m1 * m1 + m2 * m2)) by ring.
+      rewrite Hm. unfold Rmin in *. repeat destruct (Rle_dec _ _); lra. }
+    assert (Hray : forall t, 0 <= t -> coneU sh sr0 sr1 ux uy l (ray2 b (mkV2 m1 m2) t) = t).
+    { intros t Ht. apply (cone_ray sh sr0 sr1 ux uy l Hu Huy Hl Hx Hz b m1 m2 t HK M1 Hm Hcb Ht). }
+    exists b, (mkV2 m1 m2). split; [|split; [exact Hm|split; [apply Hside; assumption|split; [exact M1|split]]]].
+    + split; [exact HK|]. pose proof (Hray 0 ltac:(lra)) as U0. rewrite ray2_0 in U0.
+      destruct HK as (K1 & K2 & K3).
+      destruct (Req_dec (cdl sh sr0 ux uy b) 0) as [|N1]; [left; assumption|].
+      destruct (Req_dec (cvz sh b) 0) as [|N2]; [right; left; assumption|].
+      destruct (Req_dec (cwz sh b) 0) as [|N3]; [right; right; assumption|].
+      exfalso. assert (Sb : coneS sh sr0 ux uy b) by (unfold coneS; repeat split; lra).
+      apply (coneU_sign sh sr0 sr1 ux uy l Hu Huy Hl Hx Hz b) in Sb. lra.
+    + apply V2_eq; unfold ray2, b, shift2; cbn [vx vy]; fold U; apply add_neg_cancel.
+    + exact Hray.
+Qed.
+
+(* Cone3D(height, r0, r1, round): the stored fields (inset radii sr0, sr1, half height sh, slope
+   direction u, slope length l) satisfy the relations of cone_fields; when the inset radii are
+   non-negative (the admissible rounding) Evaluate is the signed distance to the revolved, rounded
+   trapezoid. *)
+Theorem cone_exact h r0 r1 round o : k_cone h r0 r1 round = Some o ->
+  exists sh sr0 sr1 ux uy l,
+    cone_fields sh sr0 sr1 ux uy l /\ sh = h / 2 - round /\ ux * h = uy * (r1 - r0) /\
+    sr0 = r0 - (1 - ux) * (round / uy) /\ sr1 = r1 - (1 + ux) * (round / uy) /\
+    (0 <= sr0 -> 0 <= sr1 ->
+     exact3 (ev3 o) (fun p => coneU sh sr0 sr1 ux uy l (mer p) < round)
+                    (fun q => coneU sh sr0 sr1 ux uy l (mer q) = round)).
+Proof.
+  intros H. destruct (k_cone_fields _ _ _ _ _ H) as (sh & sr0 & sr1 & ux & uy & l & F & Hh & Hr & Esh & Eu & E0 & E1 & Ev).
+  exists sh, sr0, sr1, ux, uy, l. repeat (split; [assumption|]). intros H0 H1.
+  apply (exact3_ext (fun p => coneU sh sr0 sr1 ux uy l (mer p) - round)).
+  { intros p. rewrite Ev. destruct F as [Hu Huy Hl Hx Hz]. symmetry. apply (cone2_round sh sr0 sr1 ux uy l). }
+  apply (offset_of_exact3 _ (fun p => coneS sh sr0 ux uy (mer p)) (fun q => coneB sh sr0 ux uy (mer q)) round Hr).
+  apply (revolve_exact (coneU sh sr0 sr1 ux uy l)). apply cone_profile_exact; assumption.
+Qed.
+Theorem cone_is_sdf h r0 r1 round o : k_cone h r0 r1 round = Some o ->
+  exists sh sr0 sr1 ux uy l,
+    cone_fields sh sr0 sr1 ux uy l /\ sh = h / 2 - round /\ ux * h = uy * (r1 - r0) /\
+    sr0 = r0 - (1 - ux) * (round / uy) /\ sr1 = r1 - (1 + ux) * (round / uy) /\
+    (0 <= sr0 -> 0 <= sr1 ->
+     is_sdf3 (ev3 o) (fun p => coneU sh sr0 sr1 ux uy l (mer p) < round)
+                     (fun q => coneU sh sr0 sr1 ux uy l (mer q) = round)).
+Proof.
+  intros H. destruct (cone_exact h r0 r1 round o H) as (sh & sr0 & sr1 & ux & uy & l & F & A & B & C & D & E).
+  exists sh, sr0, sr1, ux, uy, l. repeat (split; [assumption|]). intros H0 H1. apply exact3_is_sdf, E; assumption.
+Qed.
+(* the unrounded cone with the solid spelt out: |z| < h/2 and the point is on the inner side of the slope *)
+Theorem cone_sharp_is_sdf h r0 r1 o : k_cone h r0 r1 0 = Some o -> 0 <= r0 -> 0 <= r1 ->
+  exists ux uy l, cone_fields (h / 2) r0 r1 ux uy l /\
+    is_sdf3 (ev3 o) (fun p => coneS (h / 2) r0 ux uy (mer p)) (fun q => coneB (h / 2) r0 ux uy (mer q)).
+Proof.
+  intros H H0 H1. destruct (k_cone_fields _ _ _ _ _ H) as (sh & sr0 & sr1 & ux & uy & l & F & Hh & Hr & Esh & Eu & E0 & E1 & Ev).
+  assert (Es : sh = h / 2) by lra. assert (Es0 : sr0 = r0) by (rewrite E0; unfold Rdiv; ring). assert (Es1 : sr1 = r1) by (rewrite E1; unfold Rdiv; ring).
+  clear Esh E0 E1. subst sh sr0 sr1. exists ux, uy, l. split; [exact F|]. apply exact3_is_sdf.
+  apply (exact3_ext (fun p => coneU (h / 2) r0 r1 ux uy l (mer p))).
+  { intros p. rewrite Ev. destruct F as [Hu Huy Hl Hx Hz]. rewrite (cone2_round (h / 2) r0 r1 ux uy l). ring. }
+  apply (revolve_exact (coneU (h / 2) r0 r1 ux uy l)). apply cone_profile_exact; assumption.
+Qed.
+
+(* ------------------------------------------------------------------ preservation under distance-preserving maps *)
+Ltac ratoms :=
+  repeat match goal with
+  | |- context [@wx ROps ?p] => let x := fresh "x" in generalize (@wx ROps p : R); intro x
+  | |- context [@wy ROps ?p] => let x := fresh "x" in generalize (@wy ROps p : R); intro x
+  | |- context [@wz ROps ?p] => let x := fresh "x" in generalize (@wz ROps p : R); intro x
+  | |- context [@vx ROps ?p] => let x := fresh "x" in generalize (@vx ROps p : R); intro x
+  | |- context [@vy ROps ?p] => let x := fresh "x" in generalize (@vy ROps p : R); intro x
+  end.
+
+Lemma dist3_zero p q : dist3 p q = 0 -> p = q.
+Proof. intros H. destruct (len3_zero _ H) as (A & B & C). cbn [sub3 wx wy wz] in A, B, C. apply V3_eq; lra. Qed.
+Lemma dist2_zero p q : dist2 p q = 0 -> p = q.
+Proof. intros H. destruct (len2_zero _ H) as (A & B). cbn [sub2 vx vy] in A, B. apply V2_eq; lra. Qed.
+
+(* rigid_preserves_sdf: h is the point map applied before evaluating (the inverse transform), g a
+   section of it *)
+Theorem rigid_preserves_sdf3 f (S B : RV3 -> Prop) (g h : RV3 -> RV3) : iso33 h -> (forall p, h (g p) = p) ->
+  is_sdf3 f S B -> is_sdf3 (fun p => f (h p)) (fun p => S (h p)) (fun q => B (h q)).
+Proof.
+  intros Ih Hg H p. destruct (H (h p)) as (Sg & Lo & (q0 & Hq0 & Dq)). split; [exact Sg|]. split.
+  - intros q Hq. rewrite <- (Ih p q). apply Lo; exact Hq.
+  - exists (g q0). split; [rewrite Hg; exact Hq0|]. rewrite <- (Ih p (g q0)), Hg. exact Dq.
+Qed.
+Theorem rigid_preserves_sdf2 f (S B : RV2 -> Prop) (g h : RV2 -> RV2) : iso22 h -> (forall p, h (g p) = p) ->
+  is_sdf2 f S B -> is_sdf2 (fun p => f (h p)) (fun p => S (h p)) (fun q => B (h q)).
+Proof.
+  intros Ih Hg H p. destruct (H (h p)) as (Sg & Lo & (q0 & Hq0 & Dq)). split; [exact Sg|]. split.
+  - intros q Hq. rewrite <- (Ih p q). apply Lo; exact Hq.
+  - exists (g q0). split; [rewrite Hg; exact Hq0|]. rewrite <- (Ih p (g q0)), Hg. exact Dq.
+Qed.
+
+(* Transform3D / Transform2D with an orthogonal matrix + translation (rigid44 / rigid33 on the entries) *)
+Theorem transform3_preserves_sdf s m o (S B : RV3 -> Prop) : rigid44 m -> k_transform3 s m = Some o ->
+  is_sdf3 (ev3 s) S B ->
+  is_sdf3 (ev3 o) (fun p => S (@m44_mulposition ROps (m44_inverse m) p)) (fun q => B (@m44_mulposition ROps (m44_inverse m) q)).
+Proof.
+  intros R H E. unfold k_transform3 in H. injection H as <-. cbn [ev3].
+  destruct (rigid44_inverse_iso m R) as [_ Ih]. destruct (rigid44_iso m R) as [_ Im].
+  destruct (rigid44_inverse_facts m R) as [_ Hr].
+  apply (rigid_preserves_sdf3 (ev3 s) S B (@m44_mulposition ROps m) _ Ih); [|exact E].
+  intros p. apply dist3_zero. rewrite <- (Im _ p), Hr. unfold dist3, len3, sub3. cbn [wx wy wz].
+  replace ((wx (m44_mulposition m p) - wx (m44_mulposition m p)) * (wx (m44_mulposition m p) - wx (m44_mulposition m p)) +
+           (wy (m44_mulposition m p) - wy (m44_mulposition m p)) * (wy (m44_mulposition m p) - wy (m44_mulposition m p)) +
+           (wz (m44_mulposition m p) - wz (m44_mulposition m p)) * (wz (m44_mulposition m p) - wz (m44_mulposition m p))) with 0 by rring.
+  apply sqrt_0.
+Qed.
+Theorem transform2_preserves_sdf s m o (S B : RV2 -> Prop) : rigid33 m -> k_transform2 s m = Some o ->
+  is_sdf2 (ev2 s) S B ->
+  is_sdf2 (ev2 o) (fun p => S (@m33_mulposition ROps (m33_inverse m) p)) (fun q => B (@m33_mulposition ROps (m33_inverse m) q)).
+Proof.
+  intros R H E. unfold k_transform2 in H. injection H as <-. cbn [ev2].
+  destruct (rigid33_inverse_iso m R) as [_ Ih]. destruct (rigid33_iso m R) as [_ Im].
+  apply (rigid_preserves_sdf2 (ev2 s) S B (@m33_mulposition ROps m) _ Ih); [|exact E].
+  intros p. apply dist2_zero. rewrite <- (Im _ p), (rigid33_inverse_right m _ R). unfold dist2, len2, sub2. cbn [vx vy].
+  replace ((vx (m33_mulposition m p) - vx (m33_mulposition m p)) * (vx (m33_mulposition m p) - vx (m33_mulposition m p)) +
+           (vy (m33_mulposition m p) - vy (m33_mulposition m p)) * (vy (m33_mulposition m p) - vy (m33_mulposition m p))) with 0 by rring.
+  apply sqrt_0.
+Qed.
+
+(* scale_preserves_sdf: k * f (p / k) *)
+Lemma len3_scale k v : 0 <= k -> len3 (mkV3 (k * wx v) (k * wy v) (k * wz v)) = k * len3 v.
+Proof.
+  intros Hk. apply sqrt_lem_1.
+  - apply sq_nonneg3.
+  - apply Rmult_le_pos; [exact Hk | apply len3_nonneg].
+  - cbn [wx wy wz]. replace (k * len3 v * (k * len3 v)) with (k * k * (len3 v * len3 v)) by ring. rewrite len3_sq. ring.
+Qed.
+Lemma len2_scale k v : 0 <= k -> len2 (mkV2 (k * vx v) (k * vy v)) = k * len2 v.
+Proof.
+  intros Hk. apply sqrt_lem_1.
+  - apply sq_nonneg2.
+  - apply Rmult_le_pos; [exact Hk | apply len2_nonneg].
+  - cbn [vx vy]. replace (k * len2 v * (k * len2 v)) with (k * k * (len2 v * len2 v)) by ring. rewrite len2_sq. ring.
+Qed.
+
+Theorem scale_preserves_sdf3 f (S B : RV3 -> Prop) k : 0 < k -> is_sdf3 f S B ->
+  is_sdf3 (fun p => f (v3muls p (1 / k)) * k) (fun p => S (v3muls p (1 / k))) (fun q => B (v3muls q (1 / k))).
+Proof.
+  intros Hk H p. destruct (H (v3muls p (1 / k))) as (Sg & Lo & (q0 & Hq0 & Dq)).
+  assert (Eabs : Rabs (f (v3muls p (1 / k)) * k) = Rabs (f (v3muls p (1 / k))) * k) by (rewrite Rabs_mult, (Rabs_pos_eq k); lra).
+  split; [|split].
+  - rewrite <- Sg. split; intros; nra.
+  - intros q Hq. rewrite Eabs. pose proof (Lo _ Hq) as L. pose proof (scale3_dist p q k Hk) as Sd.
+    apply Rle_trans with (dist3 p q / k * k); [apply Rmult_le_compat_r; lra | apply Req_le; field; lra].
+  - exists (mkV3 (k * wx q0) (k * wy q0) (k * wz q0)). split.
+    + replace (v3muls (mkV3 (k * wx q0) (k * wy q0) (k * wz q0)) (1 / k)) with q0; [exact Hq0|].
+      apply V3_eq; unfold v3muls; cbn; ratoms; rnorm; field; lra.
+    + rewrite Eabs, <- Dq. unfold dist3.
+      replace (sub3 p (mkV3 (k * wx q0) (k * wy q0) (k * wz q0)))
+        with (mkV3 (k * wx (sub3 (v3muls p (1 / k)) q0)) (k * wy (sub3 (v3muls p (1 / k)) q0)) (k * wz (sub3 (v3muls p (1 / k)) q0))).
+      * rewrite len3_scale by lra. ring.
+      * apply V3_eq; unfold sub3, v3muls; cbn; ratoms; rnorm; field; lra.
+Qed.
+Theorem scale_preserves_sdf2 f (S B : RV2 -> Prop) k : 0 < k -> is_sdf2 f S B ->
+  is_sdf2 (fun p => f (v2muls p (1 / k)) * k) (fun p => S (v2muls p (1 / k))) (fun q => B (v2muls q (1 / k))).
+Proof.
+  intros Hk H p. destruct (H (v2muls p (1 / k))) as (Sg & Lo & (q0 & Hq0 & Dq)).
+  assert (Eabs : Rabs (f (v2muls p (1 / k)) * k) = Rabs (f (v2muls p (1 / k))) * k) by (rewrite Rabs_mult, (Rabs_pos_eq k); lra).
+  split; [|split].
+  - rewrite <- Sg. split; intros; nra.
+  - intros q Hq. rewrite Eabs. pose proof (Lo _ Hq) as L. pose proof (scale2_dist p q k Hk) as Sd.
+    apply Rle_trans with (dist2 p q / k * k); [apply Rmult_le_compat_r; lra | apply Req_le; field; lra].
+  - exists (mkV2 (k * vx q0) (k * vy q0)). split.
+    + replace (v2muls (mkV2 (k * vx q0) (k * vy q0)) (1 / k)) with q0; [exact Hq0|].
+      apply V2_eq; unfold v2muls; cbn; ratoms; rnorm; field; lra.
+    + rewrite Eabs, <- Dq. unfold dist2.
+      replace (sub2 p (mkV2 (k * vx q0) (k * vy q0)))
+        with (mkV2 (k * vx (sub2 (v2muls p (1 / k)) q0)) (k * vy (sub2 (v2muls p (1 / k)) q0))).
+      * rewrite len2_scale by lra. ring.
+      * apply V2_eq; unfold sub2, v2muls; cbn; ratoms; rnorm; field; lra.
+Qed.
+(* ScaleUniform3D / ScaleUniform2D *)
+Theorem scaleuniform3_preserves_sdf s k o (S B : RV3 -> Prop) : 0 < k -> k_scaleuniform3 s k = Some o ->
+  is_sdf3 (ev3 s) S B -> is_sdf3 (ev3 o) (fun p => S (v3muls p (1 / k))) (fun q => B (v3muls q (1 / k))).
+Proof. intros Hk H E. unfold k_scaleuniform3 in H. injection H as <-. cbn [ev3]. apply (scale_preserves_sdf3 (ev3 s) S B k Hk E). Qed.
+Theorem scaleuniform2_preserves_sdf s k o (S B : RV2 -> Prop) : 0 < k -> k_scaleuniform2 s k = Some o ->
+  is_sdf2 (ev2 s) S B -> is_sdf2 (ev2 o) (fun p => S (v2muls p (1 / k))) (fun q => B (v2muls q (1 / k))).
+Proof. intros Hk H E. unfold k_scaleuniform2 in H. injection H as <-. cbn [ev2]. apply (scale_preserves_sdf2 (ev2 s) S B k Hk E). Qed.
+
+Lemma Int_part_unique0 : Int_part 0 = 0%Z.
+Proof. unfold Int_part. rewrite <- (up_tech 0 0); [lia | simpl; lra | simpl; lra]. Qed.
+
+(* full revolution of a 2D shape: RevolveTheta3D(s, 0) *)
+Lemma revolve0_ev s o : k_revolve s 0 = Some o -> forall p, ev3 o p = ev2 s (mer p).
+Proof.
+  intros H. unfold k_revolve in H. change (oltb ROps 0 (o0 ROps)) with (Rltb 0 0) in H.
+  destruct (Rltb 0 0) eqn:C; [apply Rltb_true in C; lra|].
+  assert (Et : ofmod ROps (oabs ROps 0) (@tau ROps) = 0).
+  { change (ofmod ROps (oabs ROps 0) (@tau ROps)) with (Rfmod (Rabs 0) (@tau ROps)).
+    unfold Rfmod. rewrite Rabs_R0. unfold Rdiv. rewrite Rmult_0_l. unfold Rtrunc. destruct (Rle_dec 0 0); [|lra].
+    rewrite Int_part_unique0. rnorm. ring. }
+  rewrite Et in H.
+  assert (Eq : oeqb ROps 0 (o0 ROps) = true) by (apply Reqb_true; reflexivity).
+  rewrite Eq in H. injection H as <-. intros p. cbn [ev3]. change (omax ROps) with Rmax.
+  apply Rmax_left. apply Rle_refl.
+Qed.
+Theorem revolve_full_preserves_sdf_k s o (S B : RV2 -> Prop) : k_revolve s 0 = Some o ->
+  (forall q, B q -> 0 <= vx q) -> is_sdf2 (ev2 s) S B ->
+  is_sdf3 (ev3 o) (fun p => S (mer p)) (fun q => B (mer q)).
+Proof.
+  intros H HB E. pose proof (revolve_full_preserves_sdf (ev2 s) S B HB E) as X.
+  intros p. rewrite (revolve0_ev s o H p). apply X.
 Qed.
